@@ -654,6 +654,15 @@ def rewrite_body(body, cls, decl, fname, args, all_method_cnames, extra_ids=()):
                 notes.append('integer division kept as C integer division: %s / %s' % (' '.join(t[1] for t in num), ' '.join(t[1] for t in den)))
                 i += 1
                 continue
+            if len(den) == 1 and den[0][0] == 'atom' and den[0][1].startswith('LIT(') and not den[0][1].startswith('LIT(0,'):
+                # division by a non-zero literal: multiply by the exact reciprocal literal
+                n_, d_ = den[0][1][4:-1].split(',')
+                if int(n_) < 0:
+                    n_, d_ = str(-int(n_)), str(-int(d_))
+                toks[i:e] = [('op', '*'), ('atom', 'LIT(%s,%s)' % (d_, n_))]
+                hit('Dlit')
+                i += 2
+                continue
             toks[i:e] = [('op', '*'), ('id', 'vinv'), ('op', '(')] + den + [('op', ')')]
             hit('D')
             i += 3
